@@ -125,6 +125,14 @@ theorem setAt_getD {α} (l : List α) (i : Nat) (x d : α) (j : Nat) :
         rw [ih]
         simp
 
+theorem setAt_getD_self (l : List Nat) (i : Nat) : setAt l i (l.getD i 0) = l := by
+  induction l generalizing i with
+  | nil => rfl
+  | cons y ys ih =>
+    cases i with
+    | zero => simp [setAt]
+    | succ i => simp only [setAt, List.getD_cons_succ, ih]
+
 theorem setAt_length {α} (l : List α) (i : Nat) (x : α) : (setAt l i x).length = l.length := by
   induction l generalizing i with
   | nil => rfl
